@@ -226,7 +226,7 @@ EXTRA = {
            'the box edges are one formula per axis. Per-axis membership tests of the tree (particle inside cell) mention each axis exactly once (R02.10). Arguments handed to helpers have the dimension of the parameter they bind (R02.4 at call sites); the cell-moment update handles the leaf case of the visited cell and guards the division by the cell mass (R02.11). The monopole data of the tree is refreshed for every root cell before every tree force evaluation (R15.12); root-box lookups treat the three axes alike (R15.9, shared).',
     'C03': 'Also: the bisection fallback decides on a finite value (R03.6 - today a known finding: it is NaN-blind); the pair set of the direct and compensated routines leaves out exactly the term solved by the Kepler step for gravity_ignore_terms 1 and 2 (R02.8). The coordinate system whose kick compensates the central attraction names the same mass as its Kepler step (R03.7); the bracket of the bisection fallback is really exchanged for negative steps (R03.8); the cached Jacobi/heliocentric copy advanced by the Kepler step is declared stale for every deferred-mode consumer wherever code outside the integrators changes particles, and on any change of the particle count (R09.10); R09.11 as for C01. The state handed back by a synchronise is the synchronised one (R09.3: conversions to inertial coordinates precede the restore of the cached state).',
     'C04': 'Also: every x/y/z statement triple of every function of every integrator source file is one formula under an axis permutation (R04.6). R03.7: drift and kick of the barycentric splitting add up to the N-body Hamiltonian. A rejected TRACE step restores every member of the integrator struct that the attempt incremented, the centre-of-mass position included (R04.7). Every pair enters the kick once for every ignore-terms setting (R02.8); R09.3 as for C03. Momentum sums of the central body are read only when complete (R01.10, shared).',
-    'C05': 'Also: the byte count of every case of the writer\'s dtype switch equals the size of the members the rows of that dtype designate (R05.8). Integer members classified inert (warning latches) guard nothing but messages, so a restored simulation takes the same path as the running one (R05.9); re-attaching the output leaves the persisted cadence counters alone (R06.5). The classification of unpersisted members is checked against the code: the compensated-summation scratch buffer is reset before it is read (R05.10), conditions on scratch counters guard only re-allocation and scratch state (R05.11); the reader\'s byte accounting follows read helpers and is path-sensitive (R05.5); the element counter of an array field is stored for every field read (R06.9); a picked-up snapshot receives the caller\'s keep_unsynchronized on the integrator in use (R09.7/R09.8/R09.11). Persisted arrays of whole particles are zero-initialised where they are (re)allocated (R05.12). Writing a snapshot leaves the simulation unchanged (serialiser effect set, R19.4 shared); a state equal to the first snapshot is still appended (R06.10, shared).',
+    'C05': 'Also: the byte count of every case of the writer\'s dtype switch equals the size of the members the rows of that dtype designate (R05.8). Integer members classified inert (warning latches) guard nothing but messages, so a restored simulation takes the same path as the running one (R05.9); re-attaching the output leaves the persisted cadence counters alone (R06.5). The classification of unpersisted members is checked against the code: the compensated-summation scratch buffer is reset before it is read (R05.10), conditions on scratch counters guard only re-allocation and scratch state (R05.11); the reader\'s byte accounting follows read helpers and is path-sensitive (R05.5); the element counter of an array field is stored for every field read (R06.9); a picked-up snapshot receives the caller\'s keep_unsynchronized on the integrator in use (R09.7/R09.8/R09.11). Simulation(filename=...) and the class methods built on it read the file: keywords declared by __init__ are honoured by __new__ before its empty-object exit (R05.13), and no function of the Python layer loads a name that is bound nowhere (R18.11, shared). Persisted arrays of whole particles are zero-initialised where they are (re)allocated (R05.12). Writing a snapshot leaves the simulation unchanged (serialiser effect set, R19.4 shared); a state equal to the first snapshot is still appended (R06.10, shared).',
     'C06': 'Also: descriptor rows designate the member they name (R05.2, shared with C05); every per-snapshot array of the archive index gets a value that does not depend on a field being present in the delta (R06.7). The loop that builds the archive index enlarges its arrays in the last iteration their capacity admits (R06.8); reb_particle_diff compares each member of one particle with the same member of the other (R06.6). The element counter of an array field is stored whatever the field\'s size, so a vanished array is dropped on load (R06.9); an empty delta is appended like any other (R06.10). Snapshot selectors of the Python layer are never tested by truthiness - snapshot 0 is a snapshot (R06.11); ordering comparisons between the interval schedule and the simulation time carry the sign of the timestep on both sides (R06.12).',
     'C07': 'Also: every branch of Simulation.save_to_file that calls a C save function drains the message queue afterwards (R07.9). Position + length is compared with the file size non-strictly, so a snapshot that ends exactly at EOF is kept (R07.11). A byte-wise read of the index scan compares the number of bytes it got with the number it asked for (R07.12). The final snapshot of integrate() is written after the full step size has been put back (R08.10, shared with C08).',
     'C08': 'Also: the escape and close-encounter scans of the heartbeat range over the real particles only, compare in the right direction and set the matching status (R08.7); '
@@ -249,11 +249,11 @@ EXTRA = {
            'automatic rescaling divides every per-coordinate array the IAS15 allocator sizes by the same scale (R16.7); members of a variational configuration that only the second-order '
            'constructor fills are read under a test of the same configuration\'s order (R16.8); boundary conditions never touch variational particles (R15.8). The first-order variational pair kernels of reb_calculate_acceleration_var are the directional derivative of the Newtonian pair acceleration, mass variation included (R16.9); no parameter of Variation\'s Python methods is ignored (R16.10). The acc variant of every transformation is the pos variant\'s map (R12.1); moving to the centre of mass uses totals from completed loops, also when the loop body names sub-expressions (R20.7). The transformed variational particle is stored on every pass of the loop over the configurations in the Kepler solver (R16.11).',
     'C17': 'Also: descriptor rows designate the member they name (R05.2) and the archive heartbeat advances the deadline before it writes (R06.5), so a stored snapshot equals the live state. R06.8 (the index holds every snapshot) and the operand discipline of reb_particle_diff (R17.5). Coordinate transformations never store whole particles (with their memory addresses) into persisted caches (R17.7); unpersisted warning latches do not steer a copy differently from its source (R17.8); R06.9. reb_particle_diff lets the both-NaN case through for every floating-point member it compares, so the comparison is reflexive (R17.9). Every member a copy needs is persisted (R05.1, shared); saving leaves the source unchanged (R19.4, shared); a state equal to the first snapshot is still written (R06.10, shared).',
-    'C18': 'Also: no parameter of a function of the Python layer is ignored or overwritten on every path before its first read (R18.8, 10 frozen exceptions); the shortcut names of Simulation.integrator, in if-chain or table form, leave pairwise different configurations (R18.9). Option tables computed at import time are folded before comparison with the C enum. Methods of Simulation, Particles, Particle, Orbit and Rotation store nothing on the Python object except C struct members, settable properties, constructor identity and the confirmed keep-alive references (R18.10).',
+    'C18': 'Also: no parameter of a function of the Python layer is ignored or overwritten on every path before its first read (R18.8, 10 frozen exceptions); the shortcut names of Simulation.integrator, in if-chain or table form, leave pairwise different configurations (R18.9). Option tables computed at import time are folded before comparison with the C enum. Every global name loaded by a function of the Python layer is bound at module level, in an enclosing scope or in the builtins (R18.11). Methods of Simulation, Particles, Particle, Orbit and Rotation store nothing on the Python object except C struct members, settable properties, constructor identity and the confirmed keep-alive references (R18.10).',
     'C12': 'Also: transformation calls selected by a coordinate-system constant belong to one system per constant at every site (R12.6).',
     'C19': 'Also: the one capacity counter the serialiser lowers is lowered to a size the owner\'s growth test itself asks for (R19.4). The owner of a capacity the serialiser trims tests it with capacity < need only, the one test whose outcome is the same before and after trimming (R19.4). A descriptor handed to fdopen is closed once, through its stream: no close() of a descriptor whose stream was fclose()d (R19.6). A file-scope object assigned different values at different sites counts as shared state (R19.1); switches over r->status handle the statuses a client can set (R01.1).',
     'C20': 'Also: in reb_simulation_move_to_com the totals come from completed loops over the right member and the per-particle summands of the first- and second-order shifts equal '
-           'the first and mixed second derivative of sum m x / sum m (R20.7); units_convert_particle converts every dimensional field, also when written as a setattr loop. No parameter of the scaling/rotation wrappers is ignored or overwritten before it is read (R20.8); the inline conversions of the Python front end carry G exactly as the C ones do (R11.4, R11.8); every quaternion returned by reb_rotation_init_from_to is built from normalised vectors (unit typestate, R20.9); reb_rotation_to_orbital returns angles whose sum / difference reproduce the two arctangents that determine the rotation in each of its three branches, given the half-angle form of reb_rotation_init_orbit derived symbolically (R20.10). The effect sets of reb_simulation_imul/iadd/isub on a particle are exactly positions and velocities (R20.11); the vector constructors copy their arguments (R20.12). reb_rotation_init_to_new_axes projects on the normalised new z axis and is the product of from_to(newz, z) and a rotation about z (R20.13). reb_simulation_com sums over all real particles (R20.14).',
+           'the first and mixed second derivative of sum m x / sum m (R20.7); units_convert_particle converts every dimensional field, also when written as a setattr loop. No parameter of the scaling/rotation wrappers is ignored or overwritten before it is read (R20.8); the inline conversions of the Python front end carry G exactly as the C ones do (R11.4, R11.8); every quaternion returned by reb_rotation_init_from_to is built from normalised vectors (unit typestate, R20.9); reb_rotation_to_orbital returns angles whose sum / difference reproduce the two arctangents that determine the rotation in each of its three branches, given the half-angle form of reb_rotation_init_orbit derived symbolically (R20.10). The effect sets of reb_simulation_imul/iadd/isub on a particle are exactly positions and velocities (R20.11); the vector constructors copy their arguments (R20.12). reb_rotation_init_to_new_axes projects on the normalised new z axis and is the product of from_to(newz, z) and a rotation about z (R20.13). reb_simulation_com sums over all real particles (R20.14). The methods of the vector and rotation classes load only bound names (R18.11, shared); Rotation constructors that build their result with a C function return nothing else (R20.15).',
 }
 for _k, _t in EXTRA.items():
     CLAIMS[_k]['decided'] = CLAIMS[_k]['decided'].rstrip() + ' ' + _t
